@@ -1,6 +1,9 @@
 (* args engine runner *)
 let opt_hex (s : string) : n list option = if s = "_" then None else Some (bytes_of_hex s)
 let hexs (b : n list) = if b = [] then "-" else hex_of_bytes b
+let fs_of (files : string list) =
+  List.map (fun pc -> match String.split_on_char '=' pc with
+                      | [p; c] -> (bytes_of_hex p, bytes_of_hex c) | _ -> failwith "fs") files
 let handle (w : string list) : string =
   match w with
   | "set" :: pcp :: login :: namemax :: dflt :: known :: selfp :: ef :: ect :: eut :: ercmd :: emisc :: erpath :: opts ->
@@ -20,12 +23,28 @@ let handle (w : string list) : string =
                                    (match s.misc with Some m -> hexs m | None -> "_"); hexs s.rpath])
   | "wcoll" :: file :: files ->
     (* files: path=content pairs in hex *)
-    let fs = List.map (fun pc -> match String.split_on_char '=' pc with
-                                 | [p; c] -> (bytes_of_hex p, bytes_of_hex c) | _ -> failwith "fs") files in
-    (match read_wcoll fs (bytes_of_hex file) with
+    (match read_wcoll (fs_of files) (bytes_of_hex file) with
      | RFatal -> "FATAL"
+     | RFault -> "FAULT"
+     | RDiverges -> "DIVERGES"
      | ROk (exprs, _, warns) ->
        let h = List.fold_left (fun h e -> fst (push h e)) hl_empty exprs in
        "OK W=" ^ string_of_int (int_of_nat warns) ^ " " ^ hexlist (iter_all h.ranges))
+  | "split" :: sep :: s :: [] ->
+    "OK " ^ hexlist (list_split (n_of_int (int_of_string sep)) (bytes_of_hex s))
+  | "asm" :: stdin :: wcoll :: args :: files ->
+    (* the -w arguments (comma-joined hex, "." = none), standard input, WCOLL ("_" = unset), the file system;
+       answer: the target list after wcoll_expand (every host pushed once more) *)
+    let argl = if args = "." then [] else List.map bytes_of_hex (String.split_on_char ',' args) in
+    let w = { aw_fs = fs_of files; aw_stdin = bytes_of_hex stdin; aw_wcoll = opt_hex wcoll } in
+    (match assemble w argl with
+     | AError -> "ERROR"
+     | AFault -> "FAULT"
+     | ADiverges -> "DIVERGES"
+     | AOutOfScope -> "OUTOFSCOPE"
+     | AOk (exprs, warns) ->
+       let h = List.fold_left (fun h e -> fst (push h e)) hl_empty exprs in
+       let h2 = reexpand (iter_all h.ranges) in
+       "OK W=" ^ string_of_int (int_of_nat warns) ^ " X=" ^ hexlist exprs ^ " " ^ hexlist (iter_all h2.ranges))
   | _ -> "MODEL-BADCASE"
 let () = main_loop handle
